@@ -379,6 +379,10 @@ def r2_fix_points_order(repo: Repo, rep):
         if ret is None:
             rep.violation(R, fi.site(), fi.fq, "returns points", "returns None", "None")
             continue
+        if any(op == "==" and "keys()" in l and "keys()" in r and not pol for op, l, r, pol in guards):
+            rep.violation(R, fi.site(p.ret_node), fi.fq, "points whose variable names differ from the model's are rejected on every path", f"returns {dump(ret)[:80]} although the key sets differ",
+                          "return under differing key sets")
+            continue
         if isinstance(ret, ast.Name) and ret.id == pname:
             sides = sorted([f"{pname}.space", "self.input_space"])
             eq = any(op == "==" and [l, r] == sides and pol for op, l, r, pol in guards)
